@@ -18,21 +18,22 @@ Theorem T12_map_connection_failure : forall f, f_operr f = Some false -> classif
 Proof. exact (map_connection_failure ob_handler_order ob_goos_not_windows ob_code_net_other). Qed.
 Print Assumptions T12_map_connection_failure.
 
-Theorem T12_map_connect_timeout : forall f, f_operr f = Some true -> classify f = 504.
-Proof. exact (map_connect_timeout ob_handler_order ob_goos_not_windows ob_code_net_timeout). Qed.
+Theorem T12_map_connect_timeout : forall f,
+  f_operr f = Some true \/ (f_operr f = None /\ f_timeout f = true) -> classify f = 504.
+Proof. exact (map_connect_timeout ob_handler_order ob_goos_not_windows ob_code_net_timeout ob_code_timeout). Qed.
 Print Assumptions T12_map_connect_timeout.
 
-Theorem T12_map_tls_failure : forall f, f_operr f = None ->
+Theorem T12_map_tls_failure : forall f, f_operr f = None -> f_timeout f = false ->
   f_record f || f_cert f || f_ech f || f_alert f = true -> classify f = 502.
 Proof. exact (map_tls_failure ob_handler_order ob_goos_not_windows ob_code_tls_record ob_code_tls_cert ob_code_tls_ech ob_code_tls_alert). Qed.
 Print Assumptions T12_map_tls_failure.
 
-Theorem T12_map_error_status : forall f n, f_operr f = None ->
+Theorem T12_map_error_status : forall f n, f_operr f = None -> f_timeout f = false ->
   f_record f || f_cert f || f_ech f || f_alert f = false -> f_status f = Some n -> n <> 0 -> classify f = n.
 Proof. exact (map_error_status ob_handler_order ob_goos_not_windows). Qed.
 Print Assumptions T12_map_error_status.
 
-Theorem T12_map_otherwise_500 : forall f, f_operr f = None ->
+Theorem T12_map_otherwise_500 : forall f, f_operr f = None -> f_timeout f = false ->
   f_record f || f_cert f || f_ech f || f_alert f = false -> f_status f = None ->
   f_auth f || f_deny f || f_prohibited f = false -> h_text f = 0 -> classify f = 500.
 Proof. exact (map_otherwise ob_handler_order ob_goos_not_windows ob_code_default ob_code_canceled). Qed.
@@ -138,5 +139,5 @@ Example T12_example :
   pv (client_parse (wire sl [b "Content-Length: 5"] (b "hell")) true false) = Incomplete /\
   pv (client_parse (wire sl [b "Transfer-Encoding: chunked"] (chunks_bytes [(b "5", b "hello")])) false false) = Complete /\
   pv (client_parse (wire sl [b "X-A: b"] (b "hel")) true false) = Complete /\
-  classify (Build_feat false (Some false) false true false false (Some 400) true false false false false 0) = 502.
+  classify (Build_feat false (Some false) false true false false (Some 400) true false false false false 0 false) = 502.
 Proof. exact c12_example. Qed.
